@@ -176,6 +176,7 @@ type gctx struct {
 	innerErr        bool
 	selfCmp         bool
 	selfNaN         bool
+	longChain       int
 }
 
 func (g *gctx) pick(n int, what string) int { return rapid.IntRange(0, n-1).Draw(g.t, what) }
@@ -414,6 +415,30 @@ func TestExpr(t *testing.T) {
 		want := []string{"num", "bool", "bool"}[rapid.IntRange(0, 2).Draw(t, "want")]
 		depth := rapid.IntRange(1, maxDepth).Draw(t, "depth")
 		e := g.expr(depth, want, false)
+		if want == "num" && rapid.IntRange(0, 5).Draw(t, "long-chain") == 0 {
+			// a long chain of one precedence level (its tree leans left as deep as the chain
+			// is long), some operands being tighter-binding groups of their own
+			n := rapid.IntRange(2, 70).Draw(t, "chain-len")
+			ops := [][]string{{"+", "-"}, {"*", "/", "|"}, {"+", "-", "+", "-", "*"}}[g.pick(3, "chain-level")]
+			small := func() zn.Expr {
+				if g.pick(4, "chain-var") == 0 {
+					return g.leaf("num")
+				}
+				return &zn.Num{Val: float64(g.pick(9, "chain-num") + 1)}
+			}
+			e = small()
+			for i := 1; i < n; i++ {
+				op := ops[g.pick(len(ops), "chain-op")]
+				var r zn.Expr = small()
+				if g.pick(6, "chain-group") == 0 {
+					r = &zn.Bin{Op: "*", L: small(), R: small()}
+				}
+				e = &zn.Bin{Op: op, L: e, R: r}
+				g.ops[opLevel(op)]++
+				g.nops++
+			}
+			g.longChain = n
+		}
 		prog := buildProgram(e, inputs)
 		src, fails, ref, o := runBoth(prog, inputs)
 		if len(ref.Unspec) > 0 {
@@ -433,6 +458,9 @@ func TestExpr(t *testing.T) {
 		}
 		if len(g.ops) >= 2 {
 			labels = append(labels, "multi-level")
+		}
+		if g.longChain >= 17 {
+			labels = append(labels, "chain-of-17-or-more-operands")
 		}
 		if g.selfCmp {
 			labels = append(labels, "value-compared-with-itself")
